@@ -15,6 +15,7 @@ import EsbuildModel.Impl.Writes
 import EsbuildModel.Impl.SmSections
 import EsbuildModel.Impl.Ctx
 import EsbuildModel.Impl.Lower
+import EsbuildModel.Impl.ChunkHash
 
 open EsbuildModel
 
@@ -37,6 +38,7 @@ def dispatch (kernel : String) (args : List String) : String :=
   | "smsections" => SmSections.driver args
   | "ctx" => Ctx.driver args
   | "lower" => Lower.driver args
+  | "chunkhash" => ChunkHash.driver args
   | _ => "bad-kernel"
 
 partial def loop (hin hout : IO.FS.Stream) : IO Unit := do
